@@ -1205,6 +1205,7 @@ func (x *Exec) doSelect(fr *Frame, in *ssa.Select) {
 	if x.sched && in.Blocking {
 		x.yield() // a select is a scheduling point: another goroutine may run before readiness is looked at
 	}
+	withdrawn := -1
 	ready := func() []int {
 		var r []int
 		for i, st := range in.States {
@@ -1217,6 +1218,8 @@ func (x *Exec) doSelect(fr *Frame, in *ssa.Select) {
 			}
 			if st.Dir == types.SendOnly && (len(ch.Buf) < ch.Cap || x.chClosed(ch)) {
 				r = append(r, i)
+			} else if st.Dir == types.SendOnly && ch.Cap == 0 && x.sched && len(ch.Buf) == 0 && i != withdrawn {
+				r = append(r, i) // unbuffered: the value can be offered (see below)
 			}
 		}
 		return r
@@ -1238,6 +1241,42 @@ func (x *Exec) doSelect(fr *Frame, in *ssa.Select) {
 	if len(rd) > 0 {
 		idx = rd[x.choose('c', len(rd), nil)]
 	}
+	offered := false
+	if idx >= 0 && x.sched && in.States[idx].Dir == types.SendOnly {
+		if ch := x.get(fr, in.States[idx].Chan).(*ChanV); ch.Cap == 0 && !ch.Closed {
+			// a send case on an unbuffered channel is a rendezvous: the value is offered; the case is taken once a
+			// receiver has it. If another case becomes ready first, the offer is withdrawn and that case is taken.
+			me := x.cur
+			ch.Buf = append(ch.Buf, x.get(fr, in.States[idx].Send))
+			others := func() []int {
+				withdrawn = idx
+				r := ready()
+				withdrawn = -1
+				var o []int
+				for _, i := range r {
+					if i != idx {
+						o = append(o, i)
+					}
+				}
+				return o
+			}
+			for len(ch.Buf) > 0 && !ch.Closed && len(others()) == 0 {
+				me.blocked = func() bool { return len(ch.Buf) > 0 && !ch.Closed && len(others()) == 0 }
+				x.yield()
+				me.blocked = nil
+			}
+			if len(ch.Buf) == 0 {
+				offered = true // taken
+			} else {
+				ch.Buf = ch.Buf[:0] // withdrawn
+				if o := others(); len(o) > 0 {
+					idx = o[x.choose('c', len(o), nil)]
+				} else {
+					x.abort("PANIC", "send on closed channel")
+				}
+			}
+		}
+	}
 	tu := &Tuple{Elems: []Value{mkInt(int64(idx)), mkBool(false)}}
 	for i, st := range in.States {
 		if st.Dir == types.RecvOnly {
@@ -1252,7 +1291,7 @@ func (x *Exec) doSelect(fr *Frame, in *ssa.Select) {
 				}
 			}
 			tu.Elems = append(tu.Elems, v)
-		} else if i == idx {
+		} else if i == idx && !offered {
 			ch := x.get(fr, st.Chan).(*ChanV)
 			if ch.Closed {
 				x.abort("PANIC", "send on closed channel")
